@@ -1,9 +1,15 @@
-"""C16 — Douglas-Peucker / Visvalingam simplification (tracklib/algo/simplification.py, util/geometry.py)."""
+"""C16 — Douglas-Peucker / Visvalingam simplification (tracklib/algo/simplification.py, util/geometry.py).
+
+Case kinds: `dp` / `vw` (list-level model: kept indices), `trk` (Track-level model: the Track object returned by
+douglas_peucker / visvalingam / simplify in its various call forms, and the input track's snapshot), `mode` (the dispatcher),
+`dist` / `area` (point-wise geometry), flag `wild` (coordinates outside any ENU frame: correspondence only)."""
 import itertools, math
 from fractions import Fraction
 from engine import Prop, fbits, bitsf, close, ratstr, parse_rat
 
-SLACK = 1e-9          # the oracle accepts distance <= eps * (1 + SLACK): float rounding of the code's own distances
+SLACK = 1e-9          # the oracle accepts distance <= eps * (1 + SLACK) + ABS_SLACK * (largest |coordinate|): float rounding of the
+ABS_SLACK = 1e-13     # code's own distances -- relative to eps, and absolute (differences of coordinates of magnitude M carry an error ~1e-16 M,
+                      # which dominates when eps itself is of that order: e.g. (95.68,61.18),(11.58,84.09),(-72.52000000000001,107.0), eps = 3.55e-15)
 TOLS = [1e-3, 1e-2, 0.1, 0.25, 0.5, 0.7, 0.75, 1, 1.0, 1.25, 1.5, 2, 2.5, 3, 5, 10.0, 100, 1e3]
 
 
@@ -30,6 +36,16 @@ def polyline_d2(p, V):
     return min(seg_d2(p, V[k], V[k + 1]) for k in range(len(V) - 1))
 
 
+def seg_d2_float(p, a, b):
+    """float version of seg_d2: ONLY a pre-filter for the exact test (see polyline_far)"""
+    dx, dy = b[0] - a[0], b[1] - a[1]
+    l2 = dx * dx + dy * dy
+    if l2 == 0:
+        return (p[0] - a[0]) ** 2 + (p[1] - a[1]) ** 2
+    t = max(0.0, min(1.0, ((p[0] - a[0]) * dx + (p[1] - a[1]) * dy) / l2))
+    return (p[0] - a[0] - t * dx) ** 2 + (p[1] - a[1] - t * dy) ** 2
+
+
 def mirror_dist(x0, y0, x1, y1, x2, y2):
     """float distance with the same formula as the code; used ONLY to generate boundary tolerances"""
     l = math.sqrt((x2 - x1) ** 2 + (y2 - y1) ** 2)
@@ -38,6 +54,43 @@ def mirror_dist(x0, y0, x1, y1, x2, y2):
     t = ((x0 - x1) * (x2 - x1) + (y0 - y1) * (y2 - y1)) / l / l
     t = min(1.0, max(0.0, t))
     return math.sqrt((x0 - x1 - t * (x2 - x1)) ** 2 + (y0 - y1 - t * (y2 - y1)) ** 2)
+
+
+def fv(v):
+    """case value -> float/int: non-finite numbers are stored as strings in cases (JSON)"""
+    return float(v) if isinstance(v, str) else v
+
+
+def same_num(a, b):
+    """equality of two feature values / coordinates, NaN == NaN"""
+    if isinstance(a, float) and a != a:
+        return isinstance(b, float) and b != b
+    return a == b
+
+
+def same_rows(a, b):
+    return len(a) == len(b) and all(len(r) == len(q) and all(same_num(x, y) for x, y in zip(r, q)) for r, q in zip(a, b))
+
+
+def finite_case(case):
+    return all(math.isfinite(fv(v)) for v in case["xs"] + case["ys"])
+
+
+def pow2_overflows(tol):
+    try:
+        float(tol) ** 2
+        return False
+    except OverflowError:
+        return True
+
+
+FINDING_AIRE = "vw-user-feature-named-aire"
+FINDING_TOL_OVERFLOW = "vw-tolerance-square-overflow"
+ERRMAP = {"err:AnalyticalFeatureError": "err:AnalyticalFeatureError", "err:IndexError": "err:index",
+          "err:NameError": "err:NameError", "err:RecursionError": "err:recursion", "err:KeyError": "err:key"}
+ALGO_OF_MODE = {"TV.Simplify.Algo.douglasPeucker": "douglas_peucker", "TV.Simplify.Algo.visvalingam": "visvalingam",
+                "TV.Simplify.Algo.squaring": "squaring", "TV.Simplify.Algo.optimal": "optimalSimplification",
+                "TV.Simplify.Algo.nameError": "err:NameError"}
 
 
 def collinear_run(xs, ys):
@@ -60,31 +113,66 @@ class P(Prop):
         (M, "TV.C16.dist_sq_eq", "T4 (executable form): distance_to_segment^2 equals the sqrt-free closed form distSegSq that the driver evaluates exactly on rationals against the harness' oracle"),
         (M, "TV.C16.dp_tolerance", "T5: every input fix is within eps (true point-segment distance, squared form) of a segment between two consecutive vertices of the OUTPUT polyline"),
         (M, "TV.C16.dp_correct", "T1+T2+T3+T5 in one statement: for every track of >= 2 fixes and eps > 0 a result exists, is a sublist keeping both ends, and is within tolerance"),
-        (M, "TV.C16.vw_sublist_ends", "T6: Visvalingam (areas below ARGMIN's 1e300 sentinel, any tolerance, any scalar type) returns a sublist keeping the first and last observation and its loop stops by itself within len(track) passes"),
+        (M, "TV.C16.vw_sublist_ends", "T6: Visvalingam (areas below ARGMIN's initial minimum, +inf since 68863c7: finite areas, any tolerance, any scalar type) returns a sublist keeping the first and last observation and its loop stops by itself within len(track) passes"),
         (M, "TV.C16.dp_any_tiebreak", "T7: whichever of several equally far fixes is taken as split point (the runs the correspondence check accepts), the result is a sublist keeping both ends; any scalar type"),
         (M, "TV.C16.dp_any_tiebreak_tolerance", "T7: every such run is within tolerance, and the code's own run (first farthest fix) is one of them"),
         (M, "TV.C16.single_fix", "a one-fix track is returned unchanged by both algorithms"),
+        (M, "TV.C16.dp_track_points", "T8: the positions of the Track returned by douglas_peucker(track, eps) are those of the list-level model douglasPeucker (and it recurses for ever exactly when that model does): T1-T5, T7 are about the Track that simplify(track, eps, MODE_SIMPLIFY_DOUGLAS_PEUCKER) returns; any scalar type"),
+        (M, "TV.C16.dp_track_obs", "T8: Douglas-Peucker returns the input's OBSERVATIONS (position, timestamp tag and feature row) as a sub-sequence with both ends; the result's feature dict is empty (names not transmitted), its uid/tid/base are the input's or Track()'s defaults 0/0/None (always the defaults for a track of <= 2 fixes)"),
+        (M, "TV.C16.dp_track_correct", "the statement of C16 for Douglas-Peucker on the Track object in one piece (ordered field, exact sqrt): a result exists, its observations (feature rows included) are a sub-sequence with both ends, every input fix is within eps of the returned polyline"),
+        (M, "TV.C16.vw_track", "T9: Visvalingam on a Track with a well-formed feature table without '@aire', any tolerance: the call succeeds, the positions are the list-level model's, the observations returned keep their feature rows, the feature dict and uid/tid/base are the input's: the temporary '@aire' column (created last, read by ARGMIN, updated, removed) leaves no trace; the input is not written (deep copy; the model is a function)"),
+        (M, "TV.C16.vw_track_ends", "T9: with T6's hypothesis the first and last observation (feature rows included) of the Track are kept"),
+        (M, "TV.C16.vw_removeObs_is_C04", "composition with C04: output.removeObs(id) (TV.Seq.removeObs, the model of removeObsList([id]) used by the Track-level loop) is the eraseIdx of the list-level loop; the + of Douglas-Peucker uses C04's sameNames rule as it is"),
+        (M, "TV.C16.simplify_dispatch", "simplify(track, tol, 1) is douglas_peucker, mode 2 is visvalingam, a mode outside 1..8 raises (NameError); modes 3..8 call other functions, outside the statement"),
+        (M, "TV.C16.vw_sentinel_first_pass", "T6' (round 1's open statement, now proved): when no interior fix has an initial area below ARGMIN's initial minimum (+inf since 68863c7: the areas are inf or NaN), ARGMIN answers 0, NaN > eps is False, and the first pass removes the FIRST observation; any scalar type"),
+        (M, "TV.C16.vw_threshold", "T10 (threshold semantics, linear order): under T6's hypothesis every interior fix of Visvalingam's result spans with its two neighbours in the result a triangle of area > eps^2 (the '@aire' column stays consistent with the current neighbours; ARGMIN designates a smallest entry)"),
     ]
     partial = []
     open_statements = [
         "IEEE rounding: T3 (field form), T4 and T5 are over a linearly ordered field with an exact sqrt; on floats the tolerance is sampled by the transfer "
-        "check with slack 1e-9 (T1, T2, T6 and the scalar-independent T3 do apply to the Float model as they assume nothing about the scalar)",
-        "Visvalingam with a triangle area >= 1e300 or NaN (coordinates ~1e150, not ENU tracks): ARGMIN falls back to index 0 and the first fix is removed; excluded by T6's hypothesis",
+        "check with relative slack 1e-9 on eps plus absolute slack 1e-13 x (largest |coordinate|) (T1, T2, T6 and the scalar-independent T3 do apply to the Float model as they assume nothing about the scalar)",
+        "Visvalingam beyond the FIRST pass when areas are infinite or NaN, i.e. not below ARGMIN's initial minimum +inf (coordinates ~1e154 and more, not ENU tracks): "
+        "T6' proves that the first pass removes the first fix when no area is below the sentinel; mixed columns and the later passes are only compared "
+        "with the model (stream `wild`)",
+        "T10 (vw_threshold) is proved over a linear order; on floats the areas are rounded, so an area within an ulp of eps^2 may fall on either side "
+        "(model and code agree bit for bit there: correspondence)",
     ]
     modelled = ("util/geometry.py distance_to_segment (l == 0 branch, normalised scalar product, clamp to the segment's box), "
                 "triangle_area, aire_visval; algo/simplification.py douglas_peucker (n <= 2 base case, first farthest fix by strict >, "
                 "dmax < eps, split L[0:imax] / L[imax:n], recursion, concatenation) and visvalingam (eps **= 2, '@aire' column with NaN at "
-                "both ends, Operator.ARGMIN with the 1e300 sentinel, break on area > eps, removal, two neighbour updates); simplify() dispatch")
-    trusted = ["`eps **= 2` is modelled as eps*eps: the generators only emit tolerances with tol**2 == tol*tol in Python",
-               "Track.copy (deepcopy), Track.__add__, removeObs and the feature table are trusted to keep observations intact "
-               "(the oracle checks tags and positions of the output observations)",
-               "visvalingam on an empty track (Python raises AnalyticalFeatureError) is outside the model"]
-    rule = ("tracks of 1..9 fixes on integer lattices of side 2..6 (collinear runs, consecutive duplicates, revisited positions, closed loops "
+                "both ends, Operator.ARGMIN with its initial minimum float('inf') (68863c7; 1e300 before), break on area > eps, removal, two neighbour updates). "
+                "On the Track object (Model/SimplifyTrack.lean): simplify(track, tolerance, mode, verbose) dispatch for every mode "
+                "(1, 2 modelled; 3 squaring and 4..8 optimalSimplification named, not modelled; others NameError); douglas_peucker's "
+                "Track(L) / Track([L[0], L[n-1]], uid, tid, base) / Track(L[0:imax], ...) + Track(L[imax:n], ...) with Track.__add__'s "
+                "rule for uid/tid/base and the feature dict (C04's sameNames); visvalingam's track.copy(), addAnalyticalFeature(aire_visval, '@aire') "
+                "(createAnalyticalFeature when new: column len(dico), 0.0; an empty track raises), setObsAnalyticalFeature('@aire', 0, nan), "
+                "the loop on that column of the feature rows (getObsAnalyticalFeature, C04's removeObs), removeAnalyticalFeature('@aire') with its index shift")
+    trusted = ["`eps **= 2` is modelled as eps*eps: the generators only emit tolerances with tol**2 == tol*tol in Python (a tolerance >= 1.35e154 makes "
+               "`eps **= 2` raise OverflowError: class vw-tolerance-square-overflow, generated once listed)",
+               "Track.copy is a deep copy (the model is functional: it cannot write its input; the harness compares a full snapshot of the input "
+               "track before and after every call: observations' identity, positions, times, feature rows, feature dict, uid/tid/base)",
+               "z coordinates and timestamps are not in the model (the algorithms never read them); the harness checks they travel unchanged",
+               "feature rows are as long as the feature dict says (C01's invariant)",
+               "CPython's recursion limit (1000 frames) is outside the model: douglas_peucker recurses once per split level, T3 proves the depth is at most len(track), "
+               "and a track of more than ~1000 fixes shaped so that every split peels one fix raises RecursionError (findings/C16.json, class dp-recursion-depth; "
+               "the harness generates tracks of at most 300 fixes)"]
+    rule = ("[list-level streams] tracks of 1..9 fixes on integer lattices of side 2..6 (collinear runs, consecutive duplicates, revisited positions, closed loops "
             "forced with stated probabilities), quarter-step dyadic and 2-decimal float tracks; tolerances 1e-3..1e3 (ints and floats), random "
             "3-digit tolerances and tolerances equal to the float distance of a fix to the chord (the dmax == eps boundary); every fix carries its "
             "index as timestamp (and optionally a feature) so kept *observations* are identified; both through simplify(track, tol, mode) and the "
             "functions directly; all 3-fix (quick) / 3- and 4-fix (thorough) tracks on the 3x3 lattice are enumerated. distance_to_segment and "
-            "triangle_area are also compared point-wise. non-trivial = at least 3 fixes (a fix can be dropped)")
+            "triangle_area are also compared point-wise. "
+            "[Track-object stream `trk`] the same tracks (and the empty track) plus tracks of 10..40 fixes with 2-decimal coordinates (noisy line, closed circle, "
+            "random walk with pauses, stop cluster with an excursion, zig-zag), as Track objects with uid/tid/base set or not, 0..3 named features (NaN values "
+            "included), optional z, timestamps equal to the index or unsorted / repeated / all equal (the observation is then identified by its `tag` feature); a few "
+            "tracks of 100..300 fixes; called directly, through simplify(track, tol, mode), simplify with keywords and verbose=False, simplify's default mode, "
+            "tracklib.simplify; optionally after 1-2 earlier simplification calls on the SAME track object or on another one (state left behind); compared with "
+            "the Track-level model: kept observations, positions, feature rows, feature dict and column indices, uid/tid/base; the input track's full snapshot must be "
+            "unchanged. The oracle additionally requires every returned observation to carry the feature values of the input observation and the input to be left "
+            "unmodified. All Track objects of 2 and 3 fixes on {0,1}^2 are enumerated. [stream `mode`] which function simplify() calls for modes -2..11. "
+            "[stream `wild`] coordinates outside any ENU frame (1e101..1e308, inf, NaN, denormals; squares overflow, areas reach ARGMIN's sentinel): the oracle's "
+            "domain is finite coordinates up to 1e100 (ENU metres), beyond it only model and code are compared. "
+            "non-trivial = at least 3 fixes (a fix can be dropped)")
 
     # ---------------------------------------------------------------- setup
     def setup(self):
@@ -96,14 +184,32 @@ class P(Prop):
         from tracklib.algo import simplification as S
         from tracklib.util import geometry as G
         self.Obs, self.ENU, self.T, self.Track, self.S, self.G = Obs, ENUCoords, ObsTime, Track, S, G
+        self.tracklib = tracklib
+        self._listed = None
+
+    def listed(self, cls):
+        """is `cls` a listed finding of known_findings.json (read, never written)? Inputs of a finding's class are generated
+        only then: the engine excuses a failing case only when its class is listed (proposals: findings/C16.json)"""
+        if self._listed is None:
+            import json, os
+            try:
+                with open(os.path.join(os.path.dirname(os.path.dirname(os.path.dirname(os.path.abspath(__file__)))), "known_findings.json")) as fh:
+                    ents = json.load(fh).get("entries", [])
+                self._listed = {e.get("class") for e in ents if e.get("property") == "C16" and e.get("status") == "finding"}
+            except Exception:
+                self._listed = set()
+        return cls in self._listed
 
     # ---------------------------------------------------------------- generators
     def exhaustive_scopes(self, tier):
+        extra = ["simplify(track, tol, mode) for every mode in -2..11: which function the dispatcher calls",
+                 "every track of 2 and of 3 fixes on the lattice {0,1}^2 as a Track object (two features, uid/tid/base set) x tolerances {0.5, 1} x "
+                 "{Douglas-Peucker, Visvalingam}: positions, feature rows, feature dict, uid/tid/base of the result, input left untouched"]
         if tier == "thorough":
             return ["every track of 3 and of 4 fixes on the lattice {0,1,2}^2 x tolerances {0.5, 1, 1.5} x {Douglas-Peucker, Visvalingam}",
-                    "distance_to_segment for every point/segment on the lattice {0,1,2}^2 (9^3 triples, degenerate segments included)"]
+                    "distance_to_segment for every point/segment on the lattice {0,1,2}^2 (9^3 triples, degenerate segments included)"] + extra
         return ["every track of 3 fixes on the lattice {0,1,2}^2 x tolerances {0.5, 1, 1.5} x {Douglas-Peucker, Visvalingam}",
-                "distance_to_segment for every point/segment on the lattice {0,1,2}^2 (9^3 triples, degenerate segments included)"]
+                "distance_to_segment for every point/segment on the lattice {0,1,2}^2 (9^3 triples, degenerate segments included)"] + extra
 
     def rand_track(self, rng):
         style = rng.choice(["lattice"] * 8 + ["quarter", "float"])
@@ -145,13 +251,153 @@ class P(Prop):
             if not t > 0:
                 t = rng.choice(TOLS)
         else:
-            t = float("%.3g" % (10 ** rng.uniform(-3, 3)))
+            t = float("%.3g" % (10 ** rng.uniform(-6, 6)))
         if isinstance(t, float) and t ** 2 != t * t:       # keep `eps **= 2` == eps*eps (see trusted)
             t = rng.choice(TOLS)
         return t
 
+    # ---- Track-object stream
+    def long_track(self, rng):
+        """10..40 fixes with 2-decimal float coordinates: noisy line, closed circle, random walk, stop cluster + excursion, zig-zag"""
+        n = rng.randrange(10, 41) if rng.random() < 0.97 else rng.randrange(100, 301)
+        shape = rng.choice(["line", "circle", "walk", "stop", "zigzag"])
+        r2 = lambda v: round(v, 2)
+        pts = []
+        if shape == "line":
+            amp = rng.choice([0.0, 0.05, 0.5, 3.0])
+            for i in range(n):
+                pts.append((r2(i * 2.5), r2(i * 1.25 + rng.uniform(-amp, amp))))
+        elif shape == "circle":
+            R = rng.choice([1.0, 10.0, 50.0])
+            for i in range(n):
+                a = 2 * math.pi * i / (n - 1)
+                pts.append((r2(R * math.cos(a)), r2(R * math.sin(a))))
+            pts[-1] = pts[0]
+        elif shape == "walk":
+            x = y = 0.0
+            for i in range(n):
+                pts.append((r2(x), r2(y)))
+                if rng.random() < 0.2:
+                    continue                                  # stay: consecutive duplicate
+                x += rng.uniform(-5, 5); y += rng.uniform(-5, 5)
+        elif shape == "stop":
+            c = rng.choice([0.05, 0.3, 1.0])
+            for i in range(n):
+                pts.append((r2(rng.uniform(-c, c)), r2(rng.uniform(-c, c))))
+            if rng.random() < 0.5:
+                pts[rng.randrange(1, n - 1)] = (r2(rng.uniform(5, 20)), r2(rng.uniform(-20, 20)))
+        else:
+            h = rng.choice([0.1, 1.0, 4.0])
+            for i in range(n):
+                pts.append((float(i), h if i % 2 else 0.0))
+        if rng.random() < 0.15:
+            pts[-1] = pts[0]
+        return [p[0] for p in pts], [p[1] for p in pts], "long-" + shape
+
+    def rand_table(self, rng, n):
+        """feature names and one row per fix; the first feature (when any) is the fix's index"""
+        if n == 0:
+            return [], []
+        names = rng.choice([[], [], ["tag"], ["tag", "w"], ["tag", "w"], ["a", "b", "c"], ["speed"]])
+        rows = []
+        for i in range(n):
+            r = []
+            for j, _ in enumerate(names):
+                if j == 0:
+                    r.append(i)
+                else:
+                    r.append(rng.choice([0, 1, 2.5, -3, 7, 0.125, "nan", i * 10]))
+            rows.append(r)
+        return list(names), rows
+
+    def rand_via(self, rng, algo):
+        v = ["direct", "direct", "simplify", "simplify", "simplify_kw", "toplevel"]
+        if algo == "dp":
+            v.append("simplify_default")
+        return rng.choice(v)
+
+    def rand_trk(self, rng, long=False):
+        if long:
+            xs, ys, style = self.long_track(rng)
+            r = rng.random()
+            tol = rng.choice([0.01, 0.05, 0.1, 0.3, 0.5, 1, 1.5, 2.5, 5, 10.0, 25, 100]) if r < 0.8 else self.rand_tol(rng, xs, ys)
+        else:
+            xs, ys, style = self.rand_track(rng)
+            if rng.random() < 0.03:
+                xs, ys = [], []
+            tol = self.rand_tol(rng, xs, ys)
+        n = len(xs)
+        algo = rng.choice(["dp", "vw"])
+        names, rows = self.rand_table(rng, n)
+        pre = []
+        if rng.random() < 0.3:
+            for _ in range(rng.choice([1, 1, 2])):
+                pre.append([rng.choice(["dp", "vw"]), rng.choice([0.01, 0.5, 1, 3, 1000.0]), rng.choice(["same", "same", "other"])])
+        c = {"kind": "trk", "algo": algo, "xs": xs, "ys": ys, "tol": tol, "uid": rng.choice([0, 1, 7, 12345]),
+             "tid": rng.choice([0, 3, 9, 777]), "base": rng.choice([None, None, 5, 42]), "names": names, "rows": rows,
+             "via": self.rand_via(rng, algo), "pre": pre, "style": style}
+        if rng.random() < 0.3:
+            c["zs"] = [rng.choice([0, 1, -2, 10.5, 100]) for _ in range(n)]
+        if names and names[0] == "tag" and rng.random() < 0.35:
+            # timestamps that are not the index: unsorted, repeated, or all equal -- the observation is then identified by its `tag` feature
+            r = rng.random()
+            if r < 0.4:
+                c["ts"] = [rng.randrange(0, max(2, n // 2 + 1)) * 10 for _ in range(n)]
+            elif r < 0.7:
+                c["ts"] = [1000 - 7 * i for i in range(n)]
+            elif r < 0.85:
+                c["ts"] = [500] * n
+            else:
+                c["ts"] = [rng.randrange(0, 100000) for _ in range(n)]
+        return c
+
+    def wild_case(self, rng):
+        """coordinates outside any ENU frame: huge (squares overflow, areas become infinite: not below ARGMIN's initial minimum +inf), infinite, NaN, denormal.
+        Outside the property's domain (spec says nothing): model and code are compared on them"""
+        n = rng.choice([2, 3, 3, 4, 5, 6])
+        xs = [rng.randrange(4) for _ in range(n)]
+        ys = [rng.randrange(4) for _ in range(n)]
+        W = [1e150, -1e150, 1e155, 2e155, 1e200, -1e200, 1e308, "inf", "-inf", "nan", 5e-324, 1e-200, 1e101]
+        for _ in range(rng.choice([1, 1, 2, 3])):
+            i = rng.randrange(n)
+            if rng.random() < 0.5:
+                xs[i] = rng.choice(W)
+            else:
+                ys[i] = rng.choice(W)
+        if rng.random() < 0.2:
+            xs[-1], ys[-1] = xs[0], ys[0]
+        return {"kind": rng.choice(["dp", "vw"]), "xs": xs, "ys": ys, "tol": rng.choice([0.5, 1, 2, 1e10, 1e100, 1e150]),
+                "via": "direct", "af": False, "wild": True}
+
     def cases(self, rng, tier):
         out = []
+        for m in range(-2, 12):
+            out.append({"kind": "mode", "mode": m})
+        lat2 = [(x, y) for x in range(2) for y in range(2)]
+        for n in (2, 3):
+            for pts in itertools.product(lat2, repeat=n):
+                for tol in (0.5, 1):
+                    for algo in ("dp", "vw"):
+                        out.append({"kind": "trk", "algo": algo, "xs": [q[0] for q in pts], "ys": [q[1] for q in pts], "tol": tol,
+                                    "uid": 7, "tid": 9, "base": 5, "names": ["tag", "w"], "rows": [[i, 2.5] for i in range(n)],
+                                    "via": "direct", "pre": [], "style": "lattice"})
+        for _ in range(6000 if tier == "quick" else 60000):
+            out.append(self.rand_trk(rng))
+        for _ in range(1500 if tier == "quick" else 15000):
+            out.append(self.rand_trk(rng, long=True))
+        for _ in range(1500 if tier == "quick" else 10000):
+            out.append(self.wild_case(rng))
+        if self.listed(FINDING_AIRE):
+            for _ in range(300):
+                c = self.rand_trk(rng)
+                if c["names"] and c["algo"] == "vw":
+                    c["names"][rng.randrange(len(c["names"]))] = "@aire"
+                    out.append(c)
+        if self.listed(FINDING_TOL_OVERFLOW):
+            for _ in range(100):
+                c = self.rand_trk(rng)
+                c["tol"] = rng.choice([1.5e154, 1e200, 1e308])
+                out.append(c)
         lat = [(x, y) for x in range(3) for y in range(3)]
         sizes = (3, 4) if tier == "thorough" else (3,)
         for n in sizes:
@@ -188,21 +434,33 @@ class P(Prop):
         return out
 
     def describe(self, case):
-        t = {"kind": case["kind"]}
-        if case["kind"] in ("dp", "vw"):
+        k = case["kind"]
+        t = {"kind": k}
+        if k == "mode":
+            return t
+        if k in ("dp", "vw", "trk"):
+            if case.get("wild"):
+                return {"kind": k, "wild": True}
             xs, ys = case["xs"], case["ys"]
             n = len(xs)
-            t["n"] = n
+            t["n"] = n if n < 10 else "10+"
             t["via"] = case["via"]
             t["closed"] = n >= 2 and xs[0] == xs[-1] and ys[0] == ys[-1]
             t["consecutive_dup"] = any(xs[i] == xs[i + 1] and ys[i] == ys[i + 1] for i in range(n - 1))
             t["revisit"] = len(set(zip(xs, ys))) < n
             t["collinear_run"] = collinear_run(xs, ys)
             t["tol_decade"] = int(math.floor(math.log10(float(case["tol"])))) if case["tol"] > 0 else "<=0"
+        if k == "trk":
+            t["algo"] = case["algo"]
+            t["features"] = len(case["names"])
+            t["pre_calls"] = len(case.get("pre", []))
+            t["timestamps"] = "index" if not case.get("ts") else ("repeated" if len(set(case["ts"])) < len(case["ts"]) else "unsorted")
         return t
 
     def nontrivial(self, case):
-        if case["kind"] in ("dp", "vw"):
+        if case["kind"] == "mode":
+            return True
+        if case["kind"] in ("dp", "vw", "trk"):
             return len(case["xs"]) >= 3
         p = case["p"]
         return (p[2], p[3]) != (p[4], p[5])
@@ -211,11 +469,72 @@ class P(Prop):
     def mk(self, case):
         obs = []
         for i, (x, y) in enumerate(zip(case["xs"], case["ys"])):
-            obs.append(self.Obs(self.ENU(x, y, 0), self.T.readUnixTime(i)))
+            obs.append(self.Obs(self.ENU(fv(x), fv(y), 0), self.T.readUnixTime(i)))
         tr = self.Track(obs)
         if case.get("af"):
             tr.createAnalyticalFeature("tag", [i for i in range(len(obs))])
         return tr
+
+    def mk_trk(self, case):
+        zs = case.get("zs") or [0] * len(case["xs"])
+        ts = case.get("ts") or list(range(len(case["xs"])))
+        obs = [self.Obs(self.ENU(fv(x), fv(y), z), self.T.readUnixTime(t)) for x, y, z, t in zip(case["xs"], case["ys"], zs, ts)]
+        tr = self.Track(obs, case["uid"], case["tid"], case["base"])
+        if obs:
+            for j, name in enumerate(case["names"]):
+                tr.createAnalyticalFeature(name, [fv(r[j]) for r in case["rows"]])
+        return tr
+
+    def snapshot(self, tr):
+        """everything observable of a Track: observations (identity, position, time, feature row), feature dict, uid/tid/base"""
+        pts = tr.getObsList()
+        return {"size": tr.size(), "ids": [id(o) for o in pts],
+                "xyz": [[o.position.getX(), o.position.getY(), o.position.getZ()] for o in pts],
+                "t": [o.timestamp.toAbsTime() for o in pts], "rows": [list(o.features) for o in pts],
+                "dico": dict(tr._Track__analyticalFeaturesDico), "uid": tr.uid, "tid": tr.tid, "base": tr.base,
+                "nodata": tr.no_data_value}
+
+    def snap_diff(self, a, b):
+        for k in ("size", "ids", "t", "dico", "uid", "tid", "base", "nodata"):
+            if a[k] != b[k]:
+                return "%s: %s -> %s" % (k, a[k], b[k])
+        if not same_rows(a["xyz"], b["xyz"]):
+            return "positions: %s -> %s" % (a["xyz"], b["xyz"])
+        if not same_rows(a["rows"], b["rows"]):
+            return "feature rows: %s -> %s" % (a["rows"], b["rows"])
+        return None
+
+    def call(self, tr, algo, tol, via):
+        S = self.S
+        mode = S.MODE_SIMPLIFY_DOUGLAS_PEUCKER if algo == "dp" else S.MODE_SIMPLIFY_VISVALINGAM
+        if via == "simplify":
+            return S.simplify(tr, tol, mode)
+        if via == "simplify_kw":
+            return S.simplify(track=tr, tolerance=tol, mode=mode, verbose=False)
+        if via == "simplify_default":
+            return S.simplify(tr, tol)
+        if via == "toplevel":
+            return self.tracklib.simplify(tr, tol, mode, False)
+        return S.douglas_peucker(tr, tol) if algo == "dp" else S.visvalingam(tr, tol)
+
+    def impl_mode(self, case):
+        """which function does simplify(track, tol, mode) call? (the four candidates are replaced by recorders for the call)"""
+        S = self.S
+        names = ["douglas_peucker", "visvalingam", "squaring", "optimalSimplification"]
+        saved = {n: getattr(S, n) for n in names}
+        called = []
+        try:
+            for n in names:
+                setattr(S, n, (lambda nn: (lambda *a, **k: called.append(nn)))(n))
+            tr = self.Track([self.Obs(self.ENU(0, 0, 0), self.T.readUnixTime(0)), self.Obs(self.ENU(1, 1, 0), self.T.readUnixTime(1))])
+            try:
+                S.simplify(tr, 1.0, case["mode"], False)
+            except NameError:
+                called.append("err:NameError")
+        finally:
+            for n in names:
+                setattr(S, n, saved[n])
+        return {"calls": called}
 
     def impl(self, case):
         k = case["kind"]
@@ -223,6 +542,10 @@ class P(Prop):
             return {"v": float(self.G.distance_to_segment(*case["p"]))}
         if k == "area":
             return {"v": float(self.G.triangle_area(*case["p"]))}
+        if k == "mode":
+            return self.impl_mode(case)
+        if k == "trk":
+            return self.impl_trk(case)
         tr = self.mk(case)
         if case["via"] == "simplify":
             mode = self.S.MODE_SIMPLIFY_DOUGLAS_PEUCKER if k == "dp" else self.S.MODE_SIMPLIFY_VISVALINGAM
@@ -241,6 +564,37 @@ class P(Prop):
             xy.append([o.position.getX(), o.position.getY()])
         return {"kept": kept, "xy": xy, "input_size_after": tr.size()}
 
+    def impl_trk(self, case):
+        tr = self.mk_trk(case)
+        before = self.snapshot(tr)
+        other = None
+        for a, t, which in case.get("pre", []):
+            if which == "same":
+                target = tr
+            else:
+                if other is None:
+                    other = self.mk_trk({"xs": [0, 3, 6, 2, 0], "ys": [0, 4, 0, -1, 0], "uid": 1, "tid": 2, "base": None,
+                                         "names": ["q"], "rows": [[1], [2], [3], [4], [5]]})
+                target = other
+            try:
+                self.call(target, a, t, "direct")
+            except Exception:
+                pass                                          # an earlier call that fails is the business of its own case
+        res = self.call(tr, case["algo"], case["tol"], case["via"])
+        after = self.snapshot(tr)
+        out = self.snapshot(res)
+        inp_ids = set(before["ids"])
+        base = out["base"]
+        if case.get("ts"):                                    # observations are identified by their first feature (`tag` = index)
+            kept = [int(r[0]) if (r and isinstance(r[0], (int, float)) and r[0] == r[0] and float(r[0]).is_integer()) else -1 for r in out["rows"]]
+        else:
+            kept = [int(round(t)) for t in out["t"]]
+        return {"kept": kept, "t": out["t"], "xyz": out["xyz"], "rows": out["rows"],
+                "names": list(out["dico"].keys()), "cols": list(out["dico"].values()),
+                "uid": out["uid"], "tid": out["tid"], "base": base if (base is None or isinstance(base, int)) else repr(base),
+                "input_changed": self.snap_diff(before, after),
+                "shares_obs": bool(out["ids"]) and all(i in inp_ids for i in out["ids"])}
+
     # ---------------------------------------------------------------- model
     def requests(self, case):
         k = case["kind"]
@@ -249,7 +603,19 @@ class P(Prop):
                     "C16.distq %s" % " ".join(ratstr(v) for v in case["p"])]
         if k == "area":
             return ["C16.area %s" % " ".join(fbits(v) for v in case["p"])]
-        fl = lambda l: ",".join(fbits(v) for v in l) if l else "_"
+        if k == "mode":
+            return ["C16.mode %d" % case["mode"]]
+        fl = lambda l: ",".join(fbits(fv(v)) for v in l) if l else "_"
+        if k == "trk":
+            algo = case["algo"]
+            rows = ";".join(fl(r) for r in case["rows"]) if (case["rows"] and case["names"]) else "_"
+            line = "C16.trk %d %s %s %s %d %d %s %s %s %s" % (
+                1 if algo == "dp" else 2, fbits(case["tol"]), fl(case["xs"]), fl(case["ys"]), case["uid"], case["tid"],
+                "_" if case["base"] is None else str(case["base"]), ",".join(case["names"]) if case["names"] else "_",
+                ",".join(str(j) for j in range(len(case["names"]))) if case["names"] else "_", rows)
+            if algo == "dp" and len(case["xs"]) <= 9:      # the runs reachable with another choice among equally far fixes
+                return [line, "C16.dp %s %s %s" % (fbits(case["tol"]), fl(case["xs"]), fl(case["ys"]))]
+            return [line]
         return ["C16.%s %s %s %s" % (k, fbits(case["tol"]), fl(case["xs"]), fl(case["ys"]))]
 
     def decode(self, case, replies):
@@ -261,17 +627,64 @@ class P(Prop):
             return {"v": bitsf(r), "sq": replies[1]}
         if k == "area":
             return {"v": bitsf(r)}
+        if k == "mode":
+            return {"calls": [ALGO_OF_MODE[r]]}
+        if r == "unsupported":
+            raise ValueError("unsupported")
         if r.startswith("err:"):
-            return {"err": r}
+            return {"err": ERRMAP.get(r, r)}
         parts = r.split(" ")
         idx = lambda s: [] if s == "_" else [int(t) for t in s.split(",")]
         kept = idx(parts[0])
-        out = {"kept": kept, "xy": [[case["xs"][i], case["ys"][i]] for i in kept], "input_size_after": len(case["xs"])}
+        if k == "trk":
+            zs = case.get("zs") or [0] * len(case["xs"])
+            rows = [[]] * len(kept) if parts[6] == "_" else [[] if t == "_" else [bitsf(v) for v in t.split(",")] for t in parts[6].split(";")]
+            out = {"kept": kept, "xyz": [[fv(case["xs"][i]), fv(case["ys"][i]), zs[i]] for i in kept], "rows": rows,
+                   "names": [] if parts[4] == "_" else parts[4].split(","), "cols": idx(parts[5]),
+                   "uid": int(parts[1]), "tid": int(parts[2]), "base": None if parts[3] == "_" else int(parts[3])}
+            if len(replies) > 1 and not replies[1].startswith("err:") and replies[1] != "bad-request":
+                out["all"] = [idx(t) for t in replies[1].split(" ")[1].split(";")]
+            return out
+        out = {"kept": kept, "xy": [[fv(case["xs"][i]), fv(case["ys"][i])] for i in kept], "input_size_after": len(case["xs"])}
         if k == "dp":
             out["all"] = [idx(s) for s in parts[1].split(";")]
         return out
 
+    def compare_trk(self, case, impl_out, model_out):
+        if case["algo"] == "vw" and pow2_overflows(case["tol"]):
+            # `eps **= 2` raises where the model's eps*eps is inf (class vw-tolerance-square-overflow, see trusted)
+            return None if impl_out.get("err") == "err:OverflowError" else "expected OverflowError from eps **= 2, got %s" % (impl_out,)
+        if "err" in impl_out or "err" in model_out:
+            if impl_out.get("err") == model_out.get("err"):
+                return None
+            return "impl=%s model=%s" % (impl_out, model_out)
+        if impl_out["input_changed"]:
+            return "the input track was modified: %s" % impl_out["input_changed"]
+        if impl_out["kept"] == model_out["kept"]:
+            if not same_rows(impl_out["xyz"], model_out["xyz"]):
+                return "positions differ: impl=%s model=%s" % (impl_out["xyz"], model_out["xyz"])
+            if not same_rows(impl_out["rows"], model_out["rows"]):
+                return "feature rows differ: impl=%s model=%s" % (impl_out["rows"], model_out["rows"])
+            for f in ("names", "cols", "uid", "tid", "base"):
+                if impl_out[f] != model_out[f]:
+                    return "%s of the result: impl=%r model=%r" % (f, impl_out[f], model_out[f])
+            return None
+        if case["algo"] == "dp" and impl_out["kept"] in model_out.get("all", []):
+            # another choice among equally far fixes (free in the property): uid/tid/base depend on the left-most piece, so only
+            # their range is checked (dp_track_obs); positions and rows are the oracle's business
+            if impl_out["names"] != []:
+                return "feature dict of a Douglas-Peucker result: impl=%r model=[]" % (impl_out["names"],)
+            if (impl_out["uid"], impl_out["tid"], impl_out["base"]) not in ((case["uid"], case["tid"], case["base"]), (0, 0, None)):
+                return "uid/tid/base of the result: %r" % ((impl_out["uid"], impl_out["tid"], impl_out["base"]),)
+            return None
+        return "kept indices: impl=%s model=%s" % (impl_out["kept"], model_out["kept"])
+
     def compare(self, case, impl_out, model_out):
+        if case["kind"] == "trk":
+            return self.compare_trk(case, impl_out, model_out)
+        if case["kind"] == "mode":
+            return None if impl_out.get("calls") == model_out.get("calls") else "simplify(mode=%s) called %s, the model dispatches to %s" % (
+                case["mode"], impl_out.get("calls", impl_out), model_out.get("calls"))
         if "err" in impl_out or "err" in model_out:
             if impl_out.get("err") == model_out.get("err"):
                 return None
@@ -289,7 +702,7 @@ class P(Prop):
         if impl_out["input_size_after"] != model_out["input_size_after"]:
             return "the input track was modified: size %s" % impl_out["input_size_after"]
         if impl_out["kept"] == model_out["kept"]:
-            return None if close(impl_out["xy"], model_out["xy"]) else "positions differ: impl=%s model=%s" % (impl_out["xy"], model_out["xy"])
+            return None if same_rows(impl_out["xy"], model_out["xy"]) else "positions differ: impl=%s model=%s" % (impl_out["xy"], model_out["xy"])
         if case["kind"] == "dp" and impl_out["kept"] in model_out["all"]:
             # another choice among equally far fixes: a legitimate Douglas-Peucker run (the property leaves the tie free)
             return None
@@ -317,11 +730,16 @@ class P(Prop):
             if not close(out["v"], float(want), 1e-9, 1e-9):
                 return "triangle_area%s = %r, expected %r" % (tuple(case["p"]), out["v"], float(want))
             return None
-        name = "Douglas-Peucker" if k == "dp" else "Visvalingam"
+        if k == "mode":
+            return None                                      # the property is about what modes 1 and 2 return (kind trk, via simplify)
+        algo = case["algo"] if k == "trk" else k
+        name = "Douglas-Peucker" if algo == "dp" else "Visvalingam"
         xs, ys, tol = case["xs"], case["ys"], case["tol"]
         n = len(xs)
         if not tol > 0 or n < 2:
             return None                                      # outside the property's domain (tracks of >= 2 fixes, positive tolerances)
+        if not all(math.isfinite(fv(v)) and abs(fv(v)) <= 1e100 for v in xs + ys):
+            return None                                      # not an ENU track (metres): NaN / infinite / > 1e100 coordinates, see `rule`
         if "err" in out:
             return "%s raised %s (%s) on %s" % (name, out["err"], out.get("detail", ""), list(zip(xs, ys)))
         kept = out["kept"]
@@ -329,19 +747,47 @@ class P(Prop):
             return "%s returned an observation that is not an input observation (tags %s)" % (name, kept)
         if any(kept[j] >= kept[j + 1] for j in range(len(kept) - 1)):
             return "%s output is not a subsequence of the input in its original order: indices %s" % (name, kept)
-        for j, i in enumerate(kept):
-            if out["xy"][j] != [xs[i], ys[i]]:
-                return "%s moved observation %d from %s to %s" % (name, i, [xs[i], ys[i]], out["xy"][j])
+        if k == "trk":
+            zs = case.get("zs") or [0] * n
+            ts = case.get("ts") or list(range(n))
+            for j, i in enumerate(kept):
+                if not same_rows([out["xyz"][j]], [[xs[i], ys[i], zs[i]]]):
+                    return "%s moved observation %d from %s to %s" % (name, i, [xs[i], ys[i], zs[i]], out["xyz"][j])
+                if out["t"][j] != ts[i]:
+                    return "%s changed the timestamp of observation %d from %s to %s" % (name, i, ts[i], out["t"][j])
+        else:
+            for j, i in enumerate(kept):
+                if out["xy"][j] != [xs[i], ys[i]]:
+                    return "%s moved observation %d from %s to %s" % (name, i, [xs[i], ys[i]], out["xy"][j])
         if not kept or kept[0] != 0:
             return "%s dropped the first observation: kept %s" % (name, kept)
         if kept[-1] != n - 1:
             return "%s dropped the last observation: kept %s" % (name, kept)
-        if out.get("input_size_after") != n:
+        if k == "trk":
+            # "a subsequence of the input OBSERVATIONS": an observation is its position, its timestamp and its feature values
+            want = [[fv(v) for v in case["rows"][i]] if case["names"] else [] for i in kept]
+            if not same_rows(out["rows"], want):
+                j = next(j for j in range(len(kept)) if not same_rows([out["rows"][j]], [want[j]]))
+                return "%s returned observation %d with feature values %s, the input observation has %s" % (
+                    name, kept[j], out["rows"][j], want[j])
+            if out["input_changed"]:
+                return "%s modified its input track: %s" % (name, out["input_changed"])
+        elif out.get("input_size_after") != n:
             return "%s modified its input track (size %s -> %s)" % (name, n, out.get("input_size_after"))
-        if k == "dp":
+        if algo == "dp":
             V = [(F(xs[i]), F(ys[i])) for i in kept]
-            lim = (F(tol) * (1 + F(SLACK))) ** 2
+            scale = max([abs(float(v)) for v in xs + ys] + [1.0])
+            lim = (F(tol) * (1 + F(SLACK)) + F(ABS_SLACK) * F(scale)) ** 2
+            # sound shortcut for long tracks: a fix whose FLOAT distance is below tol by a margin (1e-6 relative, far above the rounding
+            # error of the formula as long as tol is not tiny w.r.t. the coordinates) is within tol exactly; the others get the exact test
+            quick = n > 12 and float(tol) > 1e-6 * scale
+            Vf = [(float(xs[i]), float(ys[i])) for i in kept]
+            limf = float(tol) ** 2 * (1 - 1e-6)
             for i in range(n):
+                if quick:
+                    pf = (float(xs[i]), float(ys[i]))
+                    if len(Vf) > 1 and min(seg_d2_float(pf, Vf[k_], Vf[k_ + 1]) for k_ in range(len(Vf) - 1)) <= limf:
+                        continue
                 d2 = polyline_d2((F(xs[i]), F(ys[i])), V)
                 if d2 > lim:
                     return "Douglas-Peucker(tol=%r): input fix %d %s is at distance %.12g > tol from the simplified polyline (kept %s)" % (
@@ -350,50 +796,108 @@ class P(Prop):
 
     # ---------------------------------------------------------------- known-finding classes
     def classify(self, case, impl_out, msg):
-        """'vw-area-reaches-argmin-sentinel': Visvalingam on a track three fixes of which span a triangle of area >= 1e300
-        (coordinates ~1e150): Operator.ARGMIN's sentinel `minimum = +1e300` is then never undercut, it answers index 0 and the
-        first fix is removed. Excluded by the hypothesis `hbig` of TV.C16.vw_sublist_ends; never produced by the generators."""
-        if case.get("kind") != "vw":
+        """'vw-area-reaches-argmin-sentinel': Visvalingam on a track three fixes of which span a triangle whose float area is infinite
+        or NaN (coordinates ~1e154 and more): Operator.ARGMIN's initial minimum `float('inf')` (1e300 before 68863c7) is then never
+        undercut, it answers index 0 and the first fix is removed (TV.C16.vw_sentinel_first_pass). Excluded by the hypothesis `hbig`
+        of TV.C16.vw_sublist_ends; such coordinates are outside the oracle's domain (> 1e100) and only produced by the `wild` stream
+        (correspondence).
+        'vw-user-feature-named-aire': the input track has a feature called '@aire' (the name of Visvalingam's temporary column):
+        it is overwritten in the working copy and deleted from the result (example in Props/C16.lean; outside `FreshTable`).
+        'vw-tolerance-square-overflow': `eps **= 2` raises OverflowError for a tolerance >= 1.35e154."""
+        algo = case.get("algo") if case.get("kind") == "trk" else case.get("kind")
+        if algo != "vw":
             return None
-        pts = [(F(x), F(y)) for x, y in zip(case["xs"], case["ys"])]
+        if case.get("kind") == "trk" and "@aire" in case.get("names", []):
+            return FINDING_AIRE
+        if pow2_overflows(case["tol"]):
+            return FINDING_TOL_OVERFLOW
+        if not finite_case(case):
+            return "vw-area-reaches-argmin-sentinel"
+        if all(abs(fv(v)) <= 1e100 for v in case["xs"] + case["ys"]):
+            return None                                      # every area is below 1e201
+        pts = [(float(fv(x)), float(fv(y))) for x, y in zip(case["xs"], case["ys"])]
         for a, b, c in itertools.combinations(pts, 3):
-            if abs((b[0] - a[0]) * (c[1] - b[1]) - (c[0] - b[0]) * (b[1] - a[1])) / 2 >= F(1e300):
+            area = 0.5 * abs((b[0] - a[0]) * (c[1] - b[1]) - (c[0] - b[0]) * (b[1] - a[1]))
+            if not area < float("inf"):
                 return "vw-area-reaches-argmin-sentinel"
         return None
 
     # ---------------------------------------------------------------- shrinking / search
+    def drop_fix(self, case, i, j=None):
+        """the case without fixes i..j-1"""
+        j = i + 1 if j is None else j
+        c = dict(case, xs=case["xs"][:i] + case["xs"][j:], ys=case["ys"][:i] + case["ys"][j:])
+        if case["kind"] == "trk":
+            c["rows"] = [list(r) for r in case["rows"][:i] + case["rows"][j:]]
+            if c["rows"] and c["names"]:
+                for j, r in enumerate(c["rows"]):
+                    r[0] = j                                # the first feature stays the index
+            if case.get("zs"):
+                c["zs"] = case["zs"][:i] + case["zs"][j:]
+            if case.get("ts"):
+                c["ts"] = case["ts"][:i] + case["ts"][j:]
+        return c
+
     def shrink(self, case):
-        if case["kind"] not in ("dp", "vw"):
+        if case["kind"] not in ("dp", "vw", "trk"):
             return
         n = len(case["xs"])
         if case["via"] != "direct":
             yield dict(case, via="direct")
         if case.get("af"):
             yield dict(case, af=False)
+        if case["kind"] == "trk":
+            if case.get("pre"):
+                yield dict(case, pre=[])
+                for i in range(len(case["pre"])):
+                    yield dict(case, pre=case["pre"][:i] + case["pre"][i + 1:])
+            if case.get("zs"):
+                yield dict(case, zs=None)
+            if case.get("ts"):
+                yield dict(case, ts=None)
+            if len(case["names"]) > 1:
+                yield dict(case, names=case["names"][:1], rows=[r[:1] for r in case["rows"]])
+            if case["names"] and not case.get("ts"):
+                yield dict(case, names=[], rows=[[] for _ in case["rows"]])
+            if (case["uid"], case["tid"], case["base"]) != (0, 0, None):
+                yield dict(case, uid=0, tid=0, base=None)
+        size = n // 2
+        while size >= 2:                                    # long tracks: blocks first
+            for a in range(0, n, size):
+                yield self.drop_fix(case, a, min(n, a + size))
+            size //= 2
         for i in range(n):
             if n > 1:
-                yield dict(case, xs=case["xs"][:i] + case["xs"][i + 1:], ys=case["ys"][:i] + case["ys"][i + 1:])
+                yield self.drop_fix(case, i)
         for t in (1, 0.5, 2, 0.1, 10):
             if case["tol"] != t and not isinstance(case["tol"], int):
                 yield dict(case, tol=t)
-        mx, my = min(case["xs"]), min(case["ys"])
-        if (mx, my) != (0, 0) and all(isinstance(v, int) for v in case["xs"] + case["ys"]):
-            yield dict(case, xs=[x - mx for x in case["xs"]], ys=[y - my for y in case["ys"]])
+        if all(isinstance(v, int) for v in case["xs"] + case["ys"]) and n:
+            mx, my = min(case["xs"]), min(case["ys"])
+            if (mx, my) != (0, 0):
+                yield dict(case, xs=[x - mx for x in case["xs"]], ys=[y - my for y in case["ys"]])
+        elif n and not case.get("wild"):
+            r = dict(case, xs=[round(fv(x)) for x in case["xs"]], ys=[round(fv(y)) for y in case["ys"]])
+            if r != case:
+                yield r
 
     def mutate(self, case, rng):
-        if case["kind"] not in ("dp", "vw"):
+        if case["kind"] not in ("dp", "vw", "trk") or case.get("wild"):
             return
         n = len(case["xs"])
         for t in (case["tol"] * 0.5, case["tol"] * 2, case["tol"] * 0.999, case["tol"] * 1.001, 1, 0.5):
             if t ** 2 == t * t:
                 yield dict(case, tol=t)
+        if n == 0:
+            return
         for _ in range(6):
             i = rng.randrange(n)
             xs, ys = list(case["xs"]), list(case["ys"])
             xs[i] += rng.choice([-1, 1]); ys[i] += rng.choice([-1, 0, 1])
             yield dict(case, xs=xs, ys=ys)
-        if n >= 2:
+        if n >= 2 and case["kind"] != "trk":
             yield dict(case, xs=case["xs"] + [case["xs"][0]], ys=case["ys"] + [case["ys"][0]])
+        if n >= 2:
             yield dict(case, xs=case["xs"][:-1] + [case["xs"][0]], ys=case["ys"][:-1] + [case["ys"][0]])
 
 
